@@ -1,5 +1,7 @@
 /- Line-protocol driver for the C16 model. Lines in:
-     {"schema": [[name, type], ...]}      -> ok            (sets the flat one-table schema for the following lines)
+     {"schema": [[name, type], ...]}      -> ok            (sets the base table's schema for the following lines)
+     {"derive": [[alias, [[name, expr], ...]], ...]} -> ok  (the scope for the following lines: the base table plus these
+                                                            derived tables, their projections annotated over the base table)
      [expression JSON]                    -> <annot> <final> <eng> <wf>
      {"census": true}                     -> JSON: the depth-1 census (accepted / agreeing / per family) by arity
      {"dec": [isDiv, p1?, s1?, p2?, s2?]} -> the DECIMAL parameters sqlglot annotates (`none` or `p,s`) -/
@@ -68,7 +70,7 @@ def naryOfName (s : String) : Except String NaryK :=
 def qualOfName (s : String) : Except String Qual :=
   match s with
   | "none" => pure .none | "this" => pure .this | "other" => pure .other
-  | _ => throw ("qual " ++ s)
+  | s => if s.startsWith "d:" then pure (.derived (s.drop 2).toString) else throw ("qual " ++ s)
 
 def mkArgs : List TExpr → TArgs
   | [] => .nil
@@ -118,7 +120,17 @@ def handleObj (S : Schema) (j : Json) : Except String (Schema × String) := do
     let cols ← (← sch.getArr?).toList.mapM fun c => do
       let a ← c.getArr?
       pure ((← (a[0]?.getD Json.null).getStr?), (← tyOfName (← (a[1]?.getD Json.null).getStr?)))
-    return (cols, "ok")
+    return ({ table := cols }, "ok")
+  if let .ok dv := j.getObjVal? "derive" then
+    let base : Schema := { table := S.table }
+    let ds ← (← dv.getArr?).toList.mapM fun d => do
+      let a ← d.getArr?
+      let alias ← (a[0]?.getD Json.null).getStr?
+      let ps ← (← (a[1]?.getD Json.null).getArr?).toList.mapM fun p => do
+        let pa ← p.getArr?
+        pure ((← (pa[0]?.getD Json.null).getStr?), (← parseE (pa[1]?.getD Json.null)))
+      pure (alias, ps)
+    return (deriveScope T0 base ds, "ok")
   if let .ok _ := j.getObjVal? "census" then
     return (S, census)
   if let .ok d := j.getObjVal? "dec" then
@@ -147,4 +159,4 @@ partial def loop (h : IO.FS.Stream) (S : Schema) : IO Unit := do
   IO.println out
   loop h S'
 
-def main : IO Unit := do loop (← IO.getStdin) []
+def main : IO Unit := do loop (← IO.getStdin) { table := [] }
